@@ -116,7 +116,7 @@ theorem fillInBlanks_tiles (es : List (Iv Int)) (lo hi : Int) (hlh : lo < hi) (h
   | nil =>
     refine ⟨[⟨lo, hi, ""⟩], ?_, chain_single lo hi "" hlh, by simp, by simp, by simp⟩
     have hc : Chain lo hi [⟨lo, hi, ""⟩] := chain_single lo hi "" hlh
-    simp [fillInBlanks, fillGaps, withHead, withTail, show ¬ lo < lo by omega, show ¬ hi < hi by omega, hc.sorted]
+    simp [fillInBlanks, fillGaps, withHead, withTail, hlh, show ¬ lo < lo by omega, show ¬ hi < hi by omega, hc.sorted]
   | cons first rest =>
     obtain ⟨d1, d2⟩ := hd.cons
     have hf := hp first (by simp)
@@ -127,7 +127,7 @@ theorem fillInBlanks_tiles (es : List (Iv Int)) (lo hi : Int) (hlh : lo < hi) (h
     have hend : endOf first.e rest ≤ hi :=
       endOf_le first.e rest hi hfin.2 (fun x hx => (hin x (List.mem_cons_of_mem _ hx)).2)
     unfold fillInBlanks
-    simp only [List.isEmpty_cons, Bool.false_eq_true, if_false, show ¬ first.s < lo by omega]
+    simp only [List.isEmpty_cons, Bool.false_and, Bool.false_eq_true, if_false, show ¬ first.s < lo by omega]
     generalize hdef : withHead lo first (first :: fillGaps first.e rest) = ne1
     have hne1 : Chain lo (endOf first.e rest) ne1 := by
       rw [← hdef]; unfold withHead
@@ -275,21 +275,48 @@ theorem stitch_chain (m p r : Int) (l : List (Iv Int)) (h : Chain p r l) : stitc
       simp only [stitch, tabs, Tm.zero, hb, Int.sub_self, Int.lt_irrefl, if_false, false_and]
       rw [ih a.e h.2.2]
 
-/-- **sliver absorption**: from a tiling of `[lo, hi]` the save keeps a tiling of `[lo, hi]` in which no interval is
-shorter than the threshold — or nothing at all when every interval was a sliver -/
-theorem removeUltrashort_tiles (m lo hi : Int) (es : List (Iv Int)) (h : Chain lo hi es) :
-    removeUltrashort es m lo = [] ∨
-    (removeUltrashort es m lo ≠ [] ∧ Chain lo hi (removeUltrashort es m lo) ∧ Long m (removeUltrashort es m lo)) := by
-  unfold removeUltrashort
+/-- the raw result of the two loops, before the all-slivers repair -/
+theorem loops_tiles (m lo hi : Int) (es : List (Iv Int)) (h : Chain lo hi es) :
+    stitch m (absorbShort m lo [] es) = [] ∨
+    (stitch m (absorbShort m lo [] es) ≠ [] ∧ Chain lo hi (stitch m (absorbShort m lo [] es)) ∧
+      Long m (stitch m (absorbShort m lo [] es))) := by
   have := absorbShort_spec m lo hi es [] lo (fun h' => absurd rfl h') (by intro x hx; simp at hx) (fun _ => by omega) h
   rcases this with ⟨h1, _⟩ | ⟨h1, h2, h3⟩
   · left; rw [h1]; rfl
   · right; rw [stitch_chain m lo hi _ h2]; exact ⟨h1, h2, h3⟩
 
+theorem removeUltrashort_unfold (m lo : Int) (es : List (Iv Int)) :
+    removeUltrashort es m lo =
+      if (stitch m (absorbShort m lo [] es)).isEmpty then
+        (match es.getLast? with | some lst => [⟨lo, lst.e, ""⟩] | none => [])
+      else stitch m (absorbShort m lo [] es) := by
+  unfold removeUltrashort
+  cases es.getLast? <;> rfl
+
+/-- **sliver absorption**: from a (non-empty) tiling of `[lo, hi]` the save keeps a tiling of `[lo, hi]`: either no
+interval of it is shorter than the threshold, or — every interval was a sliver — it is the single blank over `[lo, hi]` -/
+theorem removeUltrashort_tiles (m lo hi : Int) (es : List (Iv Int)) (h : Chain lo hi es) (hne : es ≠ []) :
+    removeUltrashort es m lo ≠ [] ∧ Chain lo hi (removeUltrashort es m lo) ∧
+      (Long m (removeUltrashort es m lo) ∨ removeUltrashort es m lo = [⟨lo, hi, ""⟩]) := by
+  rw [removeUltrashort_unfold]
+  rcases loops_tiles m lo hi es h with h0 | ⟨h1, h2, h3⟩
+  · obtain ⟨lst, hl1, hl2⟩ := chain_last es lo hi hne h
+    have hlh : lo < hi := by
+      cases es with
+      | nil => exact absurd rfl hne
+      | cons e rest => have := h.1; have := h.2.1; have := h.2.2.le; omega
+    simp only [h0, List.isEmpty_nil, if_true, hl1, hl2]
+    exact ⟨by simp, chain_single lo hi "" hlh, Or.inr trivial⟩
+  · have : (stitch m (absorbShort m lo [] es)).isEmpty = false := by
+      cases hs : stitch m (absorbShort m lo [] es) with
+      | nil => exact absurd hs h1
+      | cons _ _ => rfl
+    simp only [this, Bool.false_eq_true, if_false]
+    exact ⟨h1, h2, Or.inl h3⟩
+
 /-- with nothing shorter than the threshold, nothing is absorbed and nothing changes -/
 theorem removeUltrashort_id (m lo hi : Int) (es : List (Iv Int)) (h : Chain lo hi es) (hl : Long m es) :
     removeUltrashort es m lo = es := by
-  unfold removeUltrashort
   have key : ∀ (es acc : List (Iv Int)) (cur : Int), Chain cur hi es → Long m es → (acc = [] → cur = lo) →
       absorbShort m lo acc es = acc.reverse ++ es := by
     intro es
@@ -310,24 +337,25 @@ theorem removeUltrashort_id (m lo hi : Int) (es : List (Iv Int)) (h : Chain lo h
         simp only
         rw [ih (e :: a :: as) e.e hc.2.2 (fun x hx => hl' x (List.mem_cons_of_mem _ hx)) (by intro h; cases h)]
         simp
-  rw [key es [] lo h hl (fun _ => rfl)]
-  simp only [List.reverse_nil, List.nil_append]
-  exact stitch_chain m lo hi es h
+  rw [removeUltrashort_unfold, key es [] lo h hl (fun _ => rfl)]
+  simp only [List.reverse_nil, List.nil_append, stitch_chain m lo hi es h]
+  cases es with
+  | nil => rfl
+  | cons _ _ => rfl
 
 /-- **save on an interval tier**: blank filling followed by sliver absorption (threshold `m`) turns a time-ordered tier
-inside `[lo, hi]` into a tiling of `[lo, hi]` without intervals shorter than `m` (or into nothing when everything is a
-sliver); with the threshold disabled the tiling is the blank-filled tier itself and every interval has positive length -/
+inside `[lo, hi]` into a tiling of `[lo, hi]` without intervals shorter than `m` (or into the single blank over `[lo, hi]`
+when everything is a sliver); with the threshold disabled the tiling is the blank-filled tier itself and every interval
+has positive length -/
 theorem saved_entries (es : List (Iv Int)) (lo hi : Int) (hlh : lo < hi) (hp : Pos es) (hd : Disj es)
     (hin : ∀ e ∈ es, lo ≤ e.s ∧ e.e ≤ hi) (m : Int) :
     ∃ filled, fillInBlanks es lo hi = .ok filled ∧ Chain lo hi filled ∧ es.Sublist filled ∧
       (∀ x ∈ filled, x ∈ es ∨ x.l = "") ∧
-      (removeUltrashort filled m lo = [] ∨
-        (Chain lo hi (removeUltrashort filled m lo) ∧ Long m (removeUltrashort filled m lo))) := by
-  obtain ⟨filled, h1, h2, _, h4, h5⟩ := fillInBlanks_tiles es lo hi hlh hp hd hin
-  refine ⟨filled, h1, h2, h4, h5, ?_⟩
-  rcases removeUltrashort_tiles m lo hi filled h2 with h | ⟨_, h, h'⟩
-  · left; exact h
-  · right; exact ⟨h, h'⟩
+      Chain lo hi (removeUltrashort filled m lo) ∧
+      (Long m (removeUltrashort filled m lo) ∨ removeUltrashort filled m lo = [⟨lo, hi, ""⟩]) := by
+  obtain ⟨filled, h1, h2, h3, h4, h5⟩ := fillInBlanks_tiles es lo hi hlh hp hd hin
+  obtain ⟨_, c, l⟩ := removeUltrashort_tiles m lo hi filled h2 h3
+  exact ⟨filled, h1, h2, h4, h5, c, l⟩
 
 /-- re-saving: a tier that already tiles `[lo, hi]` is a fixed point of blank filling -/
 theorem fillInBlanks_idem (es : List (Iv Int)) (lo hi : Int) (hne : es ≠ []) (h : Chain lo hi es) :
